@@ -95,6 +95,8 @@ function canonSpec(nodes) {
         }
       }
     }
+    // dev mode: the names of the attributes the template writes on the node (empty lists are not announced)
+    if (DEV && n.dev && n.dev.length && (n.t === 'elem' || n.t === 'slot')) o.dev = n.dev.join(' ')
     if (n.ch) o.ch = canonSpec(n.ch)
     return o
   })
@@ -118,6 +120,7 @@ function canonActual(nodes) {
       if (a.l) { o.l = {}; for (const k of Object.keys(a.l)) o.l[k] = a.l[k].v }
     }
     if (n.generics) o.g = n.generics
+    if (DEV && n.dev && n.dev.length) o.dev = n.dev.join(' ')
     if (n.ch) o.ch = canonActual(n.ch)
     return o
   })
@@ -153,6 +156,7 @@ function mergeTexts(nodes) {
   return out
 }
 let MERGE = false
+let DEV = false
 
 // first difference between two canonical trees, or null
 function diff(a, b, path) {
@@ -338,6 +342,7 @@ function checkPaths(res, c, w, procGen, data) {
 function runCase(G, c) {
   const res = { id: c.id, ok: true, problems: [] }
   MERGE = !!c.mergeText
+  DEV = !!c.dev
   let procGen
   try {
     const group = G[c.path]
